@@ -270,149 +270,142 @@ func bl(b bool) string {
 	return "0"
 }
 
-// callAccessor invokes the named accessor on fd and renders the canonical reply.
-func callAccessor(fd *lazyproto.FieldData, name string) (reply string) {
-	defer func() {
-		if r := recover(); r != nil {
-			reply = "panic"
-		}
-	}()
-	var err error
+// accessorValue invokes the named accessor on fd and returns the Go value it handed out (the LIVE value:
+// callers that keep it can look at it again later) or the error.
+func accessorValue(fd *lazyproto.FieldData, name string) (interface{}, error) {
 	switch name {
 	case "Bool":
-		var v bool
-		if v, err = fd.BoolValue(); err == nil {
-			return "ok:b" + bl(v)
-		}
+		return fd.BoolValue()
 	case "Bools":
-		var v []bool
-		if v, err = fd.BoolValues(); err == nil {
-			return "ok:B" + joinU(v, bl)
-		}
+		return fd.BoolValues()
 	case "String":
-		var v string
-		if v, err = fd.StringValue(); err == nil {
-			return "ok:x" + hexs([]byte(v))
-		}
+		return fd.StringValue()
 	case "Strings":
-		var v []string
-		if v, err = fd.StringValues(); err == nil {
-			return "okl:" + joinU(v, func(s string) string { return hexs([]byte(s)) })
-		}
+		return fd.StringValues()
 	case "Bytes":
-		var v []byte
-		if v, err = fd.BytesValue(); err == nil {
-			return "ok:x" + hexs(v)
-		}
+		return fd.BytesValue()
 	case "Bytess":
-		var v [][]byte
-		if v, err = fd.BytesValues(); err == nil {
-			return "okl:" + joinU(v, hexs)
-		}
+		return fd.BytesValues()
 	case "UInt32":
-		var v uint32
-		if v, err = fd.UInt32Value(); err == nil {
-			return "ok:n" + u64s(uint64(v))
-		}
+		return fd.UInt32Value()
 	case "UInt32s":
-		var v []uint32
-		if v, err = fd.UInt32Values(); err == nil {
-			return "ok:N" + joinU(v, func(x uint32) string { return u64s(uint64(x)) })
-		}
+		return fd.UInt32Values()
 	case "Int32":
-		var v int32
-		if v, err = fd.Int32Value(); err == nil {
-			return "ok:i" + i64s(int64(v))
-		}
+		return fd.Int32Value()
 	case "Int32s":
-		var v []int32
-		if v, err = fd.Int32Values(); err == nil {
-			return "ok:I" + joinU(v, func(x int32) string { return i64s(int64(x)) })
-		}
+		return fd.Int32Values()
 	case "SInt32":
-		var v int32
-		if v, err = fd.SInt32Value(); err == nil {
-			return "ok:i" + i64s(int64(v))
-		}
+		return fd.SInt32Value()
 	case "SInt32s":
-		var v []int32
-		if v, err = fd.SInt32Values(); err == nil {
-			return "ok:I" + joinU(v, func(x int32) string { return i64s(int64(x)) })
-		}
+		return fd.SInt32Values()
 	case "UInt64":
-		var v uint64
-		if v, err = fd.UInt64Value(); err == nil {
-			return "ok:n" + u64s(v)
-		}
+		return fd.UInt64Value()
 	case "UInt64s":
-		var v []uint64
-		if v, err = fd.UInt64Values(); err == nil {
-			return "ok:N" + joinU(v, u64s)
-		}
+		return fd.UInt64Values()
 	case "Int64":
-		var v int64
-		if v, err = fd.Int64Value(); err == nil {
-			return "ok:i" + i64s(v)
-		}
+		return fd.Int64Value()
 	case "Int64s":
-		var v []int64
-		if v, err = fd.Int64Values(); err == nil {
-			return "ok:I" + joinU(v, i64s)
-		}
+		return fd.Int64Values()
 	case "SInt64":
-		var v int64
-		if v, err = fd.SInt64Value(); err == nil {
-			return "ok:i" + i64s(v)
-		}
+		return fd.SInt64Value()
 	case "SInt64s":
-		var v []int64
-		if v, err = fd.SInt64Values(); err == nil {
-			return "ok:I" + joinU(v, i64s)
-		}
+		return fd.SInt64Values()
 	case "Fixed32":
-		var v uint32
-		if v, err = fd.Fixed32Value(); err == nil {
-			return "ok:n" + u64s(uint64(v))
-		}
+		return fd.Fixed32Value()
 	case "Fixed32s":
-		var v []uint32
-		if v, err = fd.Fixed32Values(); err == nil {
-			return "ok:N" + joinU(v, func(x uint32) string { return u64s(uint64(x)) })
-		}
+		return fd.Fixed32Values()
 	case "Fixed64":
-		var v uint64
-		if v, err = fd.Fixed64Value(); err == nil {
-			return "ok:n" + u64s(v)
-		}
+		return fd.Fixed64Value()
 	case "Fixed64s":
-		var v []uint64
-		if v, err = fd.Fixed64Values(); err == nil {
-			return "ok:N" + joinU(v, u64s)
-		}
+		return fd.Fixed64Values()
 	case "Float32":
-		var v float32
-		if v, err = fd.Float32Value(); err == nil {
-			return "ok:n" + u64s(uint64(math.Float32bits(v)))
-		}
+		return fd.Float32Value()
 	case "Float32s":
-		var v []float32
-		if v, err = fd.Float32Values(); err == nil {
-			return "ok:N" + joinU(v, func(x float32) string { return u64s(uint64(math.Float32bits(x))) })
-		}
+		return fd.Float32Values()
 	case "Float64":
-		var v float64
-		if v, err = fd.Float64Value(); err == nil {
-			return "ok:n" + u64s(math.Float64bits(v))
-		}
+		return fd.Float64Value()
 	case "Float64s":
-		var v []float64
-		if v, err = fd.Float64Values(); err == nil {
-			return "ok:N" + joinU(v, func(x float64) string { return u64s(math.Float64bits(x)) })
-		}
-	default:
-		panic("harness: unknown accessor " + name)
+		return fd.Float64Values()
 	}
-	return classifyLazyErr(err)
+	panic("harness: unknown accessor " + name)
+}
+
+// renderAccValue renders a value handed out by an accessor as the canonical reply (the Go type decides).
+func renderAccValue(v interface{}) string {
+	switch v := v.(type) {
+	case bool:
+		return "ok:b" + bl(v)
+	case []bool:
+		return "ok:B" + joinU(v, bl)
+	case string:
+		return "ok:x" + hexs([]byte(v))
+	case []string:
+		return "okl:" + joinU(v, func(s string) string { return hexs([]byte(s)) })
+	case []byte:
+		return "ok:x" + hexs(v)
+	case [][]byte:
+		return "okl:" + joinU(v, hexs)
+	case uint32:
+		return "ok:n" + u64s(uint64(v))
+	case []uint32:
+		return "ok:N" + joinU(v, func(x uint32) string { return u64s(uint64(x)) })
+	case int32:
+		return "ok:i" + i64s(int64(v))
+	case []int32:
+		return "ok:I" + joinU(v, func(x int32) string { return i64s(int64(x)) })
+	case uint64:
+		return "ok:n" + u64s(v)
+	case []uint64:
+		return "ok:N" + joinU(v, u64s)
+	case int64:
+		return "ok:i" + i64s(v)
+	case []int64:
+		return "ok:I" + joinU(v, i64s)
+	case float32:
+		return "ok:n" + u64s(uint64(math.Float32bits(v)))
+	case []float32:
+		return "ok:N" + joinU(v, func(x float32) string { return u64s(uint64(math.Float32bits(x))) })
+	case float64:
+		return "ok:n" + u64s(math.Float64bits(v))
+	case []float64:
+		return "ok:N" + joinU(v, func(x float64) string { return u64s(math.Float64bits(x)) })
+	}
+	panic(fmt.Sprintf("harness: unknown accessor value type %T", v))
+}
+
+// callAccessorV invokes the named accessor on fd; it returns the canonical reply and, when the accessor
+// succeeded, the live value it handed out.
+func callAccessorV(fd *lazyproto.FieldData, name string) (reply string, live interface{}) {
+	defer func() {
+		if r := recover(); r != nil {
+			reply, live = "panic", nil
+		}
+	}()
+	v, err := accessorValue(fd, name)
+	if err != nil {
+		return classifyLazyErr(err), nil
+	}
+	return renderAccValue(v), v
+}
+
+// callAccessor invokes the named accessor on fd and renders the canonical reply.
+func callAccessor(fd *lazyproto.FieldData, name string) string {
+	reply, _ := callAccessorV(fd, name)
+	return reply
+}
+
+// accessPathV: FieldData(path...) then the accessor; also returns the live value handed out.
+func accessPathV(res *lazyproto.DecodeResult, path []int, name string) (reply string, live interface{}) {
+	defer func() {
+		if r := recover(); r != nil {
+			reply, live = "panic", nil
+		}
+	}()
+	fd, err := res.FieldData(path...)
+	if err != nil {
+		return classifyLazyErr(err), nil
+	}
+	return callAccessorV(fd, name)
 }
 
 // accessPath: FieldData(path...) then the accessor.
